@@ -7,6 +7,7 @@ of public names with the identity partition of the objects they denote.
 import importlib
 import importlib._bootstrap_external as _be
 import json
+import re
 import sys
 import types
 
@@ -74,7 +75,19 @@ if ok:
             kind = type(obj).__name__
             if isinstance(obj, (type, types.FunctionType, types.ModuleType, typing.TypeVar)) or callable(obj):
                 groups.setdefault(id(obj), []).append(f"{m}.{name}")
-            table.append([m, name, kind])
+            # what a name that is neither a class, a function nor a module DENOTES (type aliases, constants, loggers): its
+            # rendering with memory addresses removed - "bound to the same objects" across interpreters can only mean equal
+            # descriptions, and a typing alias whose member order follows the import order is a different object
+            desc = ""
+            if not isinstance(obj, (type, types.FunctionType, types.ModuleType)):
+                try:
+                    desc = re.sub(r"0x[0-9a-fA-F]+", "0x", repr(obj))[:400]
+                    args = typing.get_args(obj)
+                    if args:
+                        desc += " args=" + ",".join(getattr(a, "__qualname__", None) or getattr(a, "__name__", None) or repr(a) for a in args)[:400]
+                except Exception as e:  # noqa: BLE001
+                    desc = "unrenderable:" + type(e).__name__
+            table.append([m, name, kind, desc])
     parts = sorted(sorted(g) for g in groups.values())
     table = {"names": table, "identity_partition": parts}
 print(json.dumps({"order": order, "forms": [f for f, _ in forms], "events": events, "ok": ok, "error": error, "table": table}))
